@@ -215,6 +215,22 @@ func (w *world) fetchOp(vs []*view, cps []int, complete bool) {
 				if w.r.Intn(10) == 0 {
 					m = w.mkmsg(q.StopHash, false, v.hdrs[start-1], v.fids[start:stop+1])
 					w.t.Hit("fetch.noise.stophash")
+				} else if w.r.Intn(10) == 0 {
+					// more filter hashes than the query covers
+					ext := append([]int(nil), v.fids[start:stop+1]...)
+					for j := 0; j < 1+w.r.Intn(3); j++ {
+						if stop+1+j < len(v.fids) && w.r.Intn(2) == 0 {
+							ext = append(ext, v.fids[stop+1+j])
+						} else {
+							ext = append(ext, w.variant(w.chain[stop], "junk"))
+						}
+					}
+					w.chainOf(v.hdrs[start-1], ext)
+					m = w.mkmsg(q.StopHash, true, v.hdrs[start-1], ext)
+					w.t.Hit("fetch.overlong")
+				} else if w.r.Intn(12) == 0 {
+					m = w.mkmsg(q.StopHash, true, v.hdrs[start-1], v.fids[start:stop+1-w.r.Intn(3)-1])
+					w.t.Hit("fetch.short")
 				}
 				evs = append(evs, ev{rq, v.id, k, m})
 				if w.r.Intn(4) == 0 {
